@@ -59,13 +59,14 @@ Judge(c, hist, S) ==
 \* a run of tens of thousands of rounds of one body (a nested flow around one node, repeated by its parent until the node
 \* says "done"): the harness counts the callbacks instead of keeping them.  The table determines the path whatever its
 \* length: every round is one prep, one exec, one post of the node, in that order, on the run's store, and the run ends
-\* with the node's last action and no error.
+\* with the node's last action and no error.  The same for a straight chain of several hundred distinct nodes: the k-th
+\* visit is node k (checked by the harness as the callbacks come: `inorder`), each node is visited once.
 JudgeLong(c) ==
   LET L == SelectSeq(c.h, LAMBDA e : e.ev = "longrun")
       R == SelectSeq(c.h, LAMBDA e : e.ev = "runret")
       bad == (IF Len(L) = 1 /\ L[1].preps = L[1].rounds /\ L[1].execs = L[1].rounds /\ L[1].posts = L[1].rounds /\ L[1].fbs = 0
                  /\ L[1].inorder /\ L[1].sok THEN {} ELSE {"longRunFollowsTable"})
-             \cup (IF Len(R) = 1 /\ ~R[1].iserr /\ R[1].act = 3 THEN {} ELSE {"longRunEnds"})
+             \cup (IF Len(R) = 1 /\ Len(L) = 1 /\ ~R[1].iserr /\ R[1].act = L[1].endact THEN {} ELSE {"longRunEnds"})
   IN \A p \in {q \in {"C01", "C03", "C04", "C10"} : Want(q) /\ bad # {}} : PrintT(<<"FAIL", c.scn, p, bad>>)
 
 HitKeys == {"retried", "fallback", "failedRun", "cancelled", "multiNode", "nested", "emptyAct", "eres", "funcNode"}
